@@ -20,7 +20,7 @@ MsgBits(m, bitlen, nist) ==
   ELSE LET nb == bitlen \div 8  rr == bitlen % 8  full == BytesToBitsLSB(SubSeq(m, 1, nb)) IN
        IF rr = 0 THEN full
        ELSE IF nist THEN full \o (LET x == m[nb+1]  F(q) == (x \div P2[8 - rr + q]) % 2 IN SubSeq([q \in 1..rr |-> F(q)], 1, rr))   \* (x >> (8-rr)), LSB first
-       ELSE full \o SubSeq(Bits8(m[nb+1]), 1, rr)
+       ELSE full \o SubSeq(BytesToBitsLSB(<<m[nb+1]>>), 1, rr)
 Want(e, exp) == IF e.raised # "" THEN <<C("must-not-raise", exp)>> ELSE IF e.obs # exp THEN <<C("value", exp)>> ELSE <<>>
 Judge(s, e) ==
   CASE e.op = "call" ->    \* Keccak(b, r, len=d)(M, bitlen): d output bits
